@@ -49,6 +49,13 @@ def common_scenario(rnd, sid):
         d.update(fam)
         s["links"].append(d)
     s["ctl"] = [c for c in s["ctl"] if c["thr"] % s["H"] == 0][:2]      # control instants on the report grid
+    if rnd.random() < 0.5:        # a throttle control valve between two junctions whose setting is changed during the run
+        js = [n["name"] for n in s["nodes"] if n["type"] == "J"]
+        a, b = rnd.sample(js, 2)
+        nm = "V%d" % len(s["links"])
+        s["links"].append({"name": nm, "type": "TCV", "a": a, "b": b, "diam": rnd.choice([0.2, 0.3]), "minor": 0.0,
+                           "setting": netgen.rgrid(rnd, 5, 50, 5), "init": 2})
+        s["sctl"] = [{"thr": s["H"] * rnd.randint(1, 3), "link": nm, "val": netgen.rgrid(rnd, 100, 900, 50)}]
     return s
 
 
